@@ -105,8 +105,18 @@ class Lowering:
                     self.axioms.append((ab == 0) == (v == 1))
                     # tangent at 0:  exp(u) >= 1 + u   (u = a/b ; multiply by b^2 > 0)
                     self.axioms.append(self.pm(v, self.pm(b, b)) >= self.pm(b, b) + ab)
+                # a handful of coarse, sound landmarks: u <= c  =>  exp(u) <= hi_c ,  u >= c  =>  exp(u) >= lo_c
+                bb2 = self.pm(b, b)
+                for c_, lo_, hi_ in _EXP_LANDMARKS:
+                    self.axioms.append(z3.Implies(ab <= self.pm(self.rv(Fraction(c_)), bb2), v <= self.rv(hi_)))
+                    self.axioms.append(z3.Implies(ab >= self.pm(self.rv(Fraction(c_)), bb2), v >= self.rv(lo_)))
             elif op == "log":
                 self.axioms.append(ab > 0)   # domain
+                # two coarse, sound landmarks (log 1e-30 = -69.08, log 1e30 = 69.08): enough to refute clamps such as
+                # max(log p, -100) on domains bounded away from 0, which the monotonicity axioms alone cannot
+                bb = self.pm(b, b)
+                self.axioms.append(z3.Implies(ab >= self.pm(self.rv(Fraction(1, 10 ** 30)), bb), v >= -70))
+                self.axioms.append(z3.Implies(ab <= self.pm(self.rv(Fraction(10 ** 30)), bb), v <= 70))
                 if self.monotone:
                     # log u > 0 <=> u > 1  (a/b > 1 <=> a*b > b*b)
                     self.axioms.append((ab > self.pm(b, b)) == (v > 0))
@@ -223,6 +233,18 @@ def _z3_to_float(val):
         return float(val.as_decimal(17).rstrip("?"))
     except Exception:
         return 0.0
+
+
+def _exp_landmarks():
+    import math
+    out = []
+    for c in (-50, -10, -3, -1, 1, 3, 10, 50):
+        e = Fraction(math.exp(c))
+        out.append((c, e * Fraction(999999, 1000000), e * Fraction(1000001, 1000000)))      # float exp is accurate to ~1e-16 relative
+    return out
+
+
+_EXP_LANDMARKS = _exp_landmarks()
 
 
 class Verdict:
